@@ -52,7 +52,9 @@ RECURSIVE Join(_, _)
 Join(toks, st) == IF toks = <<>> THEN <<>> ELSE IF Len(toks) = 1 THEN toks[1]
                   ELSE toks[1] \o Gap(st) \o Join(Tail(toks), st)
 
-Level(e) == CASE e.t = "alt" -> 1 [] e.t = "seq" -> 2 [] e.t \in {"and", "not"} -> 3
+\* (a node tag - grammar-extras - stands in front of a whole term: `#t = !x*`; it needs parentheses wherever a term's
+\* operators or the right-hand side of `~` would otherwise claim it)
+Level(e) == CASE e.t = "alt" -> 1 [] e.t \in {"seq", "tag"} -> 2 [] e.t \in {"and", "not"} -> 3
               [] e.t \in {"opt", "rep", "rep1", "exact", "min", "max", "minmax"} -> 4 [] OTHER -> 5
 
 \* token list of expression e in a position that needs at least level `need`
@@ -77,6 +79,8 @@ Toks(e, need, st) ==
           [] e.t = "min"   -> Toks(e.a, 4, st) \o << <<123>>, Num(e.n, st), <<44>>, <<125>> >>
           [] e.t = "max"   -> Toks(e.a, 4, st) \o << <<123>>, <<44>>, Num(e.n, st), <<125>> >>
           [] e.t = "minmax" -> Toks(e.a, 4, st) \o << <<123>>, Num(e.m, st), <<44>>, Num(e.n, st), <<125>> >>
+          [] e.t = "pushlit" -> << <<80, 85, 83, 72, 95, 76, 73, 84, 69, 82, 65, 76>>, <<40>>, StrLit(e.s, st), <<41>> >>
+          [] e.t = "tag"   -> << <<35, 116>>, <<61>> >> \o Toks(e.a, 3, st)
           [] e.t = "push"  -> << <<80, 85, 83, 72>>, <<40>> >> \o (IF st.leadin THEN << <<124>> >> ELSE <<>>) \o Toks(e.a, 1, st) \o << <<41>> >>
       bar   == IF st.leadin THEN << <<124>> >> ELSE <<>>      \* a nested expression may start with `|` as well
   IN IF paren THEN << <<40>> >> \o bar \o inner \o << <<41>> >> ELSE inner
